@@ -589,7 +589,12 @@ class SymReal(object):
         ot = SymReal.lift(o)
         if ot is None:
             return NotImplemented
-        if cur().decide(ot == 0):
+        c = cur()
+        if getattr(c, "assume_nonzero_divisors", False):
+            if not z3.is_rational_value(z3.simplify(ot)):
+                c.axiom(ot != 0)          # stated assumption of the harness (structure checks only)
+            return SymReal(self.t / ot)
+        if c.decide(ot == 0):
             raise ZeroDivisionError("float division by zero")
         return SymReal(z3.simplify(self.t / ot))
 
